@@ -119,7 +119,17 @@ class Terms:
                 if all(i[0] == "const" for i in idx):
                     return ("elem", b, tuple(i[1] for i in idx))
                 return ("unknown", ast.unparse(e))
+            if isinstance(s, ast.Slice):
+                its = self.items_of(b)
+                lo = self.ev(s.lower, loc) if s.lower is not None else ("const", None)
+                hi = self.ev(s.upper, loc) if s.upper is not None else ("const", None)
+                st_ = self.ev(s.step, loc) if s.step is not None else ("const", None)
+                if its is not None and lo[0] == hi[0] == st_[0] == "const" and all(x[1] is None or isinstance(x[1], int) for x in (lo, hi, st_)):
+                    return ("list", tuple(its[slice(lo[1], hi[1], st_[1])]))
+                return ("unknown", ast.unparse(e))
             i = self.ev(s, loc)
+            if b[0] == "list" and i[0] == "const" and isinstance(i[1], int) and -len(b[1]) <= i[1] < 0:
+                return b[1][i[1]]
             if b[0] == "list" and i[0] == "const" and isinstance(i[1], int) and 0 <= i[1] < len(b[1]):
                 return b[1][i[1]]
             return ("unknown", ast.unparse(e))
@@ -129,6 +139,9 @@ class Terms:
                 if b[0] == "Q":
                     return b[1 + "abcd".index(e.attr)]
                 return ("comp", b, e.attr)
+            if e.attr == "args" and b[0] in ("Q", "qmul", "add", "scale", "neg"):
+                # sympy's Quaternion.args is (a, b, c, d)
+                return ("list", tuple(b[1:5])) if b[0] == "Q" else ("list", tuple(("comp", b, c_) for c_ in "abcd"))
             return ("attr", b, e.attr)
         if isinstance(e, ast.BinOp):
             l, r = self.ev(e.left, loc), self.ev(e.right, loc)
@@ -171,7 +184,11 @@ class Terms:
                 return ("list", tuple(("list", tuple(c[i] for c in cols)) for i in range(min(len(c) for c in cols))))
             if fname == "dict" and len(flat) == 1 and flat[0][0] == "list" and all(x[0] == "list" and len(x[1]) == 2 for x in flat[0][1]) and not e.keywords:
                 return ("dict", tuple((x[1][0], x[1][1]) for x in flat[0][1]))
-            if fname == "list" and len(flat) == 1 and self.items_of(flat[0]) is not None:
+            if fname == "reversed" and len(flat) == 1 and self.items_of(flat[0]) is not None and not e.keywords:
+                return ("list", tuple(reversed(self.items_of(flat[0]))))
+            if fname == "dict.fromkeys" and len(flat) == 2 and self.items_of(flat[0]) is not None and not e.keywords:
+                return ("dict", tuple((k_, flat[1]) for k_ in self.items_of(flat[0])))
+            if fname in ("list", "tuple") and len(flat) == 1 and self.items_of(flat[0]) is not None:
                 return ("list", tuple(self.items_of(flat[0])))
             if isinstance(f, ast.Attribute):
                 b = self.ev(f.value, loc)
